@@ -40,6 +40,12 @@ CHECKS = {
    text="TLC proves within its bounds that the Impl is never freed while a receiver, connector or flusher is inside (dropping any counter from the gate is caught) and that nothing stays parked. The real teardown paths (normal, already stopped, I/O-thread self-destruction) run with parked receiveSync/connectSync/setReadMode callers and in-flight send/close/addListener under random and preemption-bounded schedules; a crash or sanitizer report is a violation, every call must return, no callback may start after stop()/destruction returned. Real TCP and UDP engines are checked for the two-concurrent-stoppers case.",
    note="Trusted: TLC, scheduler, ASan/TSan (data-race clause is exploration: TSan sees only the schedules explored, and the event log adds happens-before edges at call boundaries). Repeated start/stop cycles and real-engine teardown races beyond concurrent stop() are covered only by the repository's own tests.",
    design="§4 C05"),
+ "C02": dict(
+   technique="TLA+ Impl spec Fanout.tla (close fan-out with concurrent observe/unobserve/setSessionData) model-checked by TLC; fan-out programs on the real Transport::Impl over a scripted engine under the deterministic scheduler (random + preemption-bounded DFS) validated by TLC against TransportTrace.tla; life-cycle scenario scripts on the real TCP and UDP engines over loopback (incl. a connect inside shutdownDrain's window entered by pausing the I/O thread at an interposed pthread_rwlock_wrlock) validated by TLC against LifecycleTrace.tla",
+   category="model_checking",
+   text="TLC exhausts the interleavings of the close fan-out with registration changes (global first, still-registered observers once in registration order, cleanup once and last). The real fan-out is driven through those interleavings by the scheduler. On the real engines every callback is logged on the single I/O thread with the open-sessions gauge; each execution must satisfy the per-identifier automaton announce? data* close (exactly one close, none missing after an orderly stop, identifiers never reused, gauge never under-counts and ends at zero).",
+   note="Trusted: TLC, scheduler, scripted engine (fan-out part), loopback sockets and generous settle times (engine part: the oracle only uses the I/O thread's own total order, never cross-thread timestamps). Engine scenarios cover accept, FIN, RST, application close, self-connect, refused connect, stop and the drain window; idle-GC, backpressure and TLS-failure closes, unresolvable names and connect timeouts are not scripted here.",
+   design="§4 C02"),
 }
 
 NOT_APPLICABLE = {
